@@ -323,6 +323,8 @@ def main(tier, seed):
                       dict(kind='correspondence', name='corr.C17', log=logs[:3]), no_input=True)
     import r9
     r9.c17_lu_factor_layouts(rep, algopy, rng, tier)
+    import r10
+    r10.c17_returned_matrices_are_fresh(rep, algopy, rng, tier)
     return rep.finish()
 
 
